@@ -299,7 +299,8 @@ NON_TOGGLES = ["// pasfmt offx\n", "// pasfmtoff\n", "{ pasfmt }", "{pasfmt o}",
 
 OFF_FORMS = ["// pasfmt off\n", "{pasfmt off}", "(* pasfmt off *)", "//PASFMT OFF\n", "{ \tPASFMT off now }", "(*pasfmt Off*)", "// pasfmt off\r\n", "// pasfmt off\r", "//pasfmt\toff\n",
              "{ pasfmt off: aligned by hand }"]
-ON_FORMS = ["// pasfmt on\n", "{pasfmt on}", "(* pasfmt on *)", "//  PasFmt   On\n", "{pasfmt ON}", "//pasfmt on\n", "// pasfmt on\r\n", "{\tpasfmt\x0con}"]
+ON_FORMS = ["// pasfmt on\n", "{pasfmt on}", "(* pasfmt on *)", "//  PasFmt   On\n", "{pasfmt ON}", "//pasfmt on\n", "// pasfmt on\r\n", "{\tpasfmt\x0con}",
+            "// pasfmt on\r", "// pasfmt on\r{x} ", "// pasfmt on\r// y\n"]
 
 
 def insert_region(text, rng):
@@ -339,7 +340,12 @@ def insert_region(text, rng):
             ignored = True
             start = pos
         elif kd == "on" and ignored:
-            end = pos + len(ptxt.rstrip("\r\n"))
+            # the region ends with the `on` comment itself (some forms carry text after the comment)
+            if ptxt.startswith("//"):
+                clen = min([ptxt.index(ch) for ch in "\r\n" if ch in ptxt] + [len(ptxt)])
+            else:
+                clen = ptxt.index("}") + 1 if ptxt.startswith("{") else ptxt.index("*)") + 2
+            end = pos + clen
             regions.append(new[start:end].encode("utf-8"))
             ignored = False
         pos += len(ptxt)
@@ -468,10 +474,14 @@ def run_c08(ctx):
         bt.append(("\n".join(lines), gen.random_cfg(rng)))
     for _ in range(ctx.n(250, 4000)):
         lit = "'''\n" + rng.choice(["", "  "]) + "foo\n'''"
-        call = rng.choice([".Format(%s, %s)", ".Replace(%s, %s)", " + Foo(%s, %s)"]) % ("B" + "b" * rng.randrange(3, 22), "C" + "c" * rng.randrange(3, 22))
+        # (half of them take an anonymous routine: its body is a CHILD line, re-decided by the reflow)
+        call = rng.choice([".Format(%s, %s)", ".Replace(%s, %s)", " + Foo(%s, %s)",
+                           ".Map(procedure begin %s; end, %s)", ".Each(procedure(X: T) begin %s; %s; end)", " + Foo(function: T begin Result := %s; end, %s)",
+                           ".Map(procedure begin %s(%s); end)"]) % ("B" + "b" * rng.randrange(3, 22), "C" + "c" * rng.randrange(3, 22))
         body = "  " * rng.randrange(1, 4)
-        bt.append(("procedure P;\nbegin\n" + body + "A := " + lit + call + ";\nend;\n", gen.random_cfg(rng)))
-    cases += boundary_width_cases(ctx, bt, "twice-decided")
+        sep = rng.choice([" ", " ", "\n"])
+        bt.append(("procedure P;\nbegin\n" + body + "A :=" + sep + lit + call + ";\nend;\n", gen.random_cfg(rng)))
+    cases += boundary_width_cases(ctx, bt, "twice-decided", input_lines=True)
     cases += witness_cases(ctx, "C08", wellformed=True)
     wf_cases = [c for c in cases if c.meta.get("wellformed")]
     other = [c for c in cases if not c.meta.get("wellformed")]
@@ -1018,7 +1028,7 @@ def insert_comments(text, rng):
             if c < 0.5:
                 out.append(rng.choice(["{c}", "(* c *)", "{ two words }"]) + " ")
             elif "\n" in t:
-                out.append(rng.choice(["// own line", "//x", "/// doc"]) + "\n")
+                out.append((rng.choice(["// own line", "//x", "/// doc"]) if rng.random() < 0.4 else gen.line_comment(rng)) + "\n")
     return "".join(out)
 
 
@@ -1060,9 +1070,41 @@ def wellformed_variants(ctx, n_gram, per=2):
     return out
 
 
+def lone_cr_comment_variant(text, rng):
+    """a `//` comment (sometimes a pasfmt toggle) appended to a statement line and terminated by a LONE CR,
+    directly followed by a block comment, another line comment or the code of the next line: only the
+    reconstructor's safety net keeps what follows out of the comment"""
+    if "'''" in text or gen.has_asm_or_toggle(text):
+        return None
+    lines = text.split("\n")
+    idx = [i for i, ln in enumerate(lines[:-1]) if ln.rstrip().endswith(";") and "//" not in ln and "{" not in ln and lines[i + 1].strip()]
+    idx = [i for i in idx if i + 1 not in idx or True]
+    if not idx:
+        return None
+    out = list(lines)
+    chosen = []
+    for i in sorted(rng.sample(idx, min(len(idx), rng.choice([1, 1, 2])))):
+        if chosen and i - chosen[-1] < 2:
+            continue
+        chosen.append(i)
+        c = rng.choice(["// c", "//c", "// pasfmt on", "// pasfmt off", "// pasfmt on", "/// d"])
+        follow = rng.choice(["", "{x} ", "{x}", "(* y *) ", "// z\n"])
+        out[i] = out[i] + " " + c + "\r" + follow + (out[i + 1].lstrip() if rng.random() < 0.7 else out[i + 1])
+        out[i + 1] = None
+    return "\n".join(l for l in out if l is not None)
+
+
 def run_c02(ctx):
     rng = ctx.rng
     cases = []
+    crcases = []
+    for text, kind, wrap in wellformed_texts(ctx, ctx.n(60, 1500))[:: ctx.n(3, 1)]:
+        t2 = lone_cr_comment_variant(text, rng)
+        if t2:
+            crcases.append(ctx.case("lone-cr-comment", t2, gen.random_cfg(rng, wrap=rng.choice([wrap, 40, 120, 1000000]))))
+    # (without the `invariants` unit: after a lone CR the next comment is typed inline, so must-break and
+    # must-not-break conflict by construction — finding F28 under C08; for C02 the re-scan decides)
+    ctx.run_stream(crcases, units=["spacing", "generics", "relex", "lex", "comment", "lower", "recon"])
     for _ in range(ctx.n(600, 12000)):
         lit = gen_literal(rng)
         cases.append(ctx.case("literal", rng.choice(CONTEXTS) % lit, gen.random_cfg(rng)))
@@ -1092,6 +1134,20 @@ def run_c06(ctx):
                 cfg = gen.random_cfg(rng, wrap=rng.choice([wrap, 30, 60, 120]))
                 pairs.append((ctx.case(kind + "-dir", text, cfg), ctx.case(kind + "-dir-relayout", t2, cfg), {}))
 
+    # very long logical lines (lookup tables, long argument lists) in two layouts: a line the wrapper gives
+    # up on (iteration limit) keeps the user's line breaks
+    def long_list(n, per_row, kind):
+        items = ["$%04X" % (i * 37 % 65536) for i in range(n)]
+        rows = [", ".join(items[i:i + per_row]) for i in range(0, n, per_row)]
+        if kind == "array":
+            return "const\n  Table: array[0..%d] of Word = (\n    " % (n - 1) + ",\n    ".join(rows) + "\n  );\n"
+        return "begin\n  Register(\n    " + ",\n    ".join(rows) + "\n  );\nend.\n"
+    for n in ctx.n([6200], [1500, 6200, 9000, 14000]):
+        for kind in ("array", "call"):
+            cfg = gen.random_cfg(rng, wrap=rng.choice([80, 120]))
+            a, b = rng.sample([4, 8, 16, 24], 2)
+            pairs.append((ctx.case("long-list", long_list(n, a, kind), cfg), ctx.case("long-list-relayout", long_list(n, b, kind), cfg), {}))
+
     def compare(ra, rb, meta):
         ctx.count("relayout_pairs")
         if ra.out != rb.out:
@@ -1115,12 +1171,12 @@ def add_raw_comments(text, rng):
     out = []
     for ln in text.split("\n"):
         if ln.rstrip().endswith(";") and rng.random() < 0.3 and "//" not in ln and "{" not in ln:
-            ln = ln + rng.choice([" //x", " //note  ", "//y", " ///doc", " // ok"])
+            ln = ln + (rng.choice([" //x", " //note  ", "//y", " ///doc", " // ok"]) if rng.random() < 0.5 else rng.choice(["", " "]) + gen.line_comment(rng))
         out.append(ln)
     return "\n".join(out)
 
 
-def boundary_width_cases(ctx, texts, stream):
+def boundary_width_cases(ctx, texts, stream, input_lines=False):
     """for each text: format once with an unconstrained width, then pick wrap_column values at and
     next to the lengths of its lines — the widths at which an off-by-one or a late content change shows"""
     rng = ctx.rng
@@ -1139,6 +1195,13 @@ def boundary_width_cases(ctx, texts, stream):
         for L in rng.sample(lens, min(len(lens), 2)):
             for w in rng.sample([L - 2, L - 1, L, L + 1], 2):
                 cases.append(ctx.case(stream, c.text, (max(1, w),) + tuple(c.cfg[1:])))
+        if input_lines and isinstance(c.text, str):
+            # widths next to the lengths of the INPUT's lines: what the first wrapping pass measures for a
+            # multi-line literal is its old last line
+            ilens = sorted({len(l) for l in c.text.split("\n") if 12 <= len(l) <= 250})
+            for L in rng.sample(ilens, min(len(ilens), 2)):
+                for w in rng.sample([L - 1, L, L + 1, L + 2], 2):
+                    cases.append(ctx.case(stream, c.text, (max(1, w),) + tuple(c.cfg[1:])))
     return cases
 
 
@@ -1177,6 +1240,8 @@ def run_c03(ctx):
                 third.append(ctx.case("third", r.out.decode("utf-8", "replace"), c.cfg, meta={"orig": c.meta.get("orig")}))
         ctx.run_stream(third, mode="fmt", oracle=oracle)
     sample = [ctx.case("trace", c.text, c.cfg) for c in second[:: max(1, len(second) // 300)]]
+    # first-pass inputs too (un-normalised comments, keyword case): the rewriters against their models
+    sample += [ctx.case("trace1", c.text, c.cfg) for c in first[:: max(1, len(first) // ctx.n(600, 4000))]]
     ctx.run_stream(sample, units=["spacing", "lower", "comment", "eofnl", "mlstring", "fmtdata"])
     ctx.hypotheses["H-W2/H-W4/H-W5: the wrapper's plan is a function of the layout-free view; reflow = fresh call"] = "fmt(fmt(x)) = fmt(x) on the real formatter"
 
@@ -1288,6 +1353,39 @@ def run_c11(ctx):
         g = []
         for w in ws:
             c = ctx.case(kind, text, (w,) + tuple(base[1:]))
+            cases.append(c)
+            g.append((w, c))
+        groups.append(g)
+    # boundary widths: for a part of the pool, widths at and next to the lengths of the lines of an
+    # unconstrained formatting (where a label list, a parameter list or an argument list starts to wrap)
+    bpool = pool[:: ctx.n(4, 1)]
+    probes = [ctx.case("probe", t, (1000000000,) + tuple(gen.random_cfg(rng)[1:])) for t, _, _ in bpool]
+    pres = ctx.run_stream(probes, mode="fmt")
+    for pc in probes:
+        r = pres.get(pc.id)
+        if r is None or r.out is None:
+            continue
+        lens = sorted({len(l.rstrip(b"\r")) for l in r.out.split(b"\n") if 14 <= len(l.rstrip(b"\r")) <= 200})
+        if not lens:
+            continue
+        L = rng.choice(lens)
+        ws = sorted(set(max(10, L + d) for d in rng.sample([-12, -8, -6, -4, -3, -2, -1, 0, 1, 2, 4, 6], ctx.n(4, 6))))
+        g = []
+        for w in ws:
+            c = ctx.case("boundary", pc.text, (w,) + tuple(pc.cfg[1:]))
+            cases.append(c)
+            g.append((w, c))
+        groups.append(g)
+    # case arms with several labels followed by `begin`, at widths around the arm headers
+    for _ in range(ctx.n(150, 1500)):
+        text, lens = gen.case_labels_program(rng)
+        L = rng.choice(lens)
+        base = gen.random_cfg(rng)
+        base = base[:1] + (0,) + base[2:4] + (2,) + base[5:]     # begin_style=auto, tab_width 2: the header lengths apply
+        ws = sorted(set(max(12, L + d) for d in rng.sample(range(-14, 5), 6)))
+        g = []
+        for w in ws:
+            c = ctx.case("case-labels", text, (w,) + tuple(base[1:]))
             cases.append(c)
             g.append((w, c))
         groups.append(g)
